@@ -258,7 +258,7 @@ def check(w, case, port, mon):
             q = a['pre'][0] if red.get('limit_bytes') else a['pre'][1]
             alpha = 2.0 ** (-red.get('wf', 9))
             avg = avg * (1 - alpha) + q * alpha
-            near = any(abs(avg - th) <= 1e-9 * max(1.0, abs(th)) for th in (red['min'], red['max'], red['qlimit']))
+            near = any(0 < abs(avg - th) <= 1e-9 * max(1.0, abs(th)) for th in (red['min'], red['max'], red['qlimit']))
             if not near:
                 if avg >= red['qlimit']:
                     stats['red_above_qlimit'] = 1
